@@ -193,19 +193,7 @@ func Exp10(d Decimal) Decimal {
 	var res decomposed192
 	var trunc int8
 
-	var sigInt uint128
-	var expInt int16
-
-	if dSigInt != 0 {
-		sigInt = uint128{1, 0}
-
-		for dSigInt > maxUnbiasedExponent {
-			sigInt = sigInt.mul64(10)
-			dSigInt--
-		}
-
-		expInt = int16(dSigInt)
-	}
+	expInt := int16(dSigInt)
 
 	if dSig[0]|dSig[1] != 0 {
 		res, trunc = decomposed192{
